@@ -183,7 +183,7 @@ def mc_property(v, tier, seed, name, prof, fields=mc_suite.ALL_FIELDS, noids=Fal
                 me = re.search(r" E\[(.*?)\] A\[", l)
                 if not (mt and mx):
                     continue
-                ents = re.findall(r"(sent|recv|drop|dupl|corr)\(([^()]*)\)", mt.group(1))
+                ents = re.findall(r"(?<![a-z])(sent|recv|drop|dupl|corr)\(([^()]*)\)", mt.group(1))
                 for pp, sc, rc in re.findall(r"(p\d+):pend=\[[^\]]*\];s=(\d+);r=(\d+)", mx.group(1)):
                     ns = sum(1 for kd, a in ents if kd == "sent" and a.split(",")[-2] == pp)
                     nr = sum(1 for kd, a in ents if kd == "recv" and a.split(",")[-1] == pp)
@@ -268,6 +268,8 @@ def mc_property(v, tier, seed, name, prof, fields=mc_suite.ALL_FIELDS, noids=Fal
         runs_e = mc_suite.split_runs(impl_out)
         rl = [l for l in lines if l.startswith(("run ", "runfrom "))]
         for k, r in enumerate(runs_e):
+            if any("dupl" in l for l in lines):
+                break       # the E line does not show the order inside a group of identical messages, which duplication changes
             if k > 0 and k < len(rl) and rl[k].startswith("runfrom") and " disabled " not in rl[k] + " " and "result=ok" in r["hdr"]:
                 b = mc_suite.shared_cache_bound(r, len(runs_e[k - 1]["C"]))
                 if b:
